@@ -1116,7 +1116,7 @@ Section Sel.
       exists cm, false, o, xs.
       cbn [dc_contrast dc_t dc_rows dc_levels categoric_data]. repeat split; try reflexivity.
       intros _. apply no_missing_spec. assumption.
-    - apply bind_ok in H as (cm & Hcode & H). injection H as <-.
+    - match type of H with (if ?c then _ else _) = _ => destruct c; [discriminate H|] end. apply bind_ok in H as (cm & Hcode & H). injection H as <-.
       exists cm, num, None, d.
       cbn [dc_contrast dc_t dc_rows dc_levels categoric_data]. repeat split; try reflexivity.
       intros Hn. exfalso. apply (Hn num d enc lv). reflexivity.
@@ -1820,7 +1820,7 @@ Section Sel.
           unfold set_data_comp in *. cbn [tcomp_sel tc_kind tc_value tc_name]. rewrite Ek, Ev in *.
           cbn [val_sel].
           rewrite (sort_levels_perm num _ _ (present_sel bd L0)).
-          apply bind_ok in H as (cm & Hcode & H). rewrite Hcode. cbn [bind].
+          match type of H with (if ?c then _ else _) = _ => destruct c; [discriminate H|] end. apply bind_ok in H as (cm & Hcode & H). rewrite Hcode. cbn [bind].
           injection H as <-. unfold dcomp_sel.
           cbn [dc_t dc_levels dc_contrast dc_rows dc_labels dc_spans].
           rewrite code_rows_sel. reflexivity.
